@@ -331,6 +331,7 @@ void reb_simulation_remove_all_particles(struct reb_simulation* const r){
 	r->N_var 	= 0;
 	free(r->particles);
 	r->particles 	= NULL;
+	reb_tree_delete(r); // leaves would refer to particles that no longer exist
 }
 
 int reb_simulation_remove_particle(struct reb_simulation* const r, int index, int keep_sorted){
@@ -418,6 +419,7 @@ int reb_simulation_remove_particle(struct reb_simulation* const r, int index, in
         if(r->N_active>0){
             r->N_active--;
         }
+        reb_tree_delete(r); // the only leaf refers to the removed particle
 		reb_simulation_warning(r, "Last particle removed.");
 		return 1;
 	}
